@@ -174,13 +174,20 @@ func runCheck(cfg *checkCfg, tier string, seed uint64, runsOverride int, writeEv
 		}
 	}
 
+	knownClasses := map[string]bool{}
+	for c := range known {
+		knownClasses[c] = true
+	}
 	// 2. seeded search
 	n := cfg.Runs[tier]
 	if runsOverride > 0 {
 		n = runsOverride
 	}
 	agg := runPool(&poolOpts{bin: bin, cfg: cfg, engine: cfg.Engine, seed: seed, tier: tier, from: runsFrom, to: runsFrom + n,
-		replayDir: replayDir, env: env, maxViol: maxViolations()})
+		replayDir: replayDir, env: env, maxViol: maxViolations(), known: knownClasses})
+	if agg.runs+len(agg.suspects) < n {
+		fmt.Printf("note: the search stopped after %d of %d runs (%d violating runs reached the limit VERIF_MAX_VIOLATIONS)\n", agg.runs, n, maxViolations())
+	}
 
 	// 3. runs that killed or stalled their worker: reproduce alone, twice, in fresh processes
 	// (at most two candidates per failure class are reproduced and minimised: a tree with a
